@@ -1067,7 +1067,7 @@ func main() {
 		maxN = 7
 	}
 	run.Set("rule", "(a) every (n,t), 2<=n<=maxN, 1<=t<n x 2 keygen seeds x 2 (message,tag) x every signer subset of size >= t+1 x orders (all permutations for size<=3; sorted, reversed, each rotation otherwise) x paths {BLSReconstructThresholdSignature, inspector+TrustedAdd, participant+VerifyAndAdd}; "+
-		"(b) n in {20,254}, t+1 in sizes_b, every (t+1)-subset of the index pool (12-element pool {0,1,6,7,8,9,14,15,16,17,n-2,n-1} for t+1<=10; a 12-element pool has no 16-subsets, so for t+1>=16 the pool is extended to 20 indices: all of 0..19 for n=20, {0,1,6,7,8,9,14,15,16,17,22,23,24,25,126,127,128,129,252,253} for n=254) in orders {sorted, reversed, rotated by 3}, stateless always, inspector+TrustedAdd on the sorted order; "+
+		"(b) n in {20,254}, t+1 in sizes_b, every (t+1)-subset of the index pool (12-element pool {0,1,6,7,8,9,14,15,16,17,n-2,n-1} for t+1<=10; a 12-element pool has no 16-subsets, so for t+1>=16 the pool is extended to 20 indices: all of 0..19 for n=20, {0,1,6,7,8,9,14,15,16,17,22,23,24,25,126,127,128,129,252,253} for n=254) in orders {sorted, reversed, rotated by 3}, stateless always, inspector+TrustedAdd on the sorted order; (b') n=254, t+1 in sizes_b_high, every (t+1)-subset of the high-index pools {242..253} and {0,1,244..253} (limb-overflow boundary: products of 8 indices near 254), same orders; "+
 		"(c) every case of (a) with n<=5 (thorough: n<=6) x every position x invalid share kinds {share of signer i+1, unrelated G1 point, share+T (T of order 3, outside G1), compression bit cleared} x the three paths; "+
 		"(d) per (n,t): exactly t shares, duplicate index at every ordered pair of positions, index -1/n/... at every position, size/threshold out of range, list-length mismatch, on the stateless API, the constructors, key generation and the stateful methods; "+
 		"(e) n=3,t=1: every call sequence of length t+3=4 over {TrustedAdd(i,kind), VerifyAndAdd(i,kind), HasShare(i), EnoughShares, ThresholdSignature} compared step by step with a sequential reference model. "+
@@ -1207,6 +1207,25 @@ func main() {
 			}
 			c := newContext(k, 0, p, false)
 			for _, sub := range combos(p, sz) {
+				bcases = append(bcases, acase{c, sub}, acase{c, reversed(sub)}, acase{c, rotated(sub, 3)})
+			}
+		}
+	}
+	// (b') high-index family: the products of up to 8 (one limb batch) signer indices close to 254
+	// are where a 64-bit limb is closest to overflowing (254*253*...*247 < 2^64 < 9 such factors)
+	hsizes := []int{9, 10}
+	if run.Thorough() {
+		hsizes = []int{8, 9, 10, 11, 12}
+	}
+	run.Set("sizes_b_high", hsizes)
+	for _, hp := range [][]int{{242, 243, 244, 245, 246, 247, 248, 249, 250, 251, 252, 253}, {0, 1, 244, 245, 246, 247, 248, 249, 250, 251, 252, 253}} {
+		for _, sz := range hsizes {
+			k := newKeygen(254, sz-1, 0, hp)
+			if k.bad {
+				continue
+			}
+			c := newContext(k, 0, hp, false)
+			for _, sub := range combos(hp, sz) {
 				bcases = append(bcases, acase{c, sub}, acase{c, reversed(sub)}, acase{c, rotated(sub, 3)})
 			}
 		}
